@@ -14,8 +14,12 @@
 use crate::common::*;
 use crate::dict::*;
 use std::collections::BTreeMap;
+use sudachi::analysis::node::{LatticeNode, PathCost, ResultNode, RightId};
+use sudachi::analysis::stateful_tokenizer::StatefulTokenizer;
 use sudachi::analysis::Mode;
 use sudachi::dic::dictionary::JapaneseDictionary;
+use sudachi::dic::subset::InfoSubset;
+use sudachi::input_text::InputBuffer;
 use sudachi::plugin::path_rewrite::join_numeric::verif_parse;
 #[cfg(c15_seq_hook)]
 use sudachi::plugin::path_rewrite::join_numeric::verif_parse_seq;
@@ -1042,8 +1046,10 @@ fn char_def() -> String {
 struct Dicts {
     _wd: Workdir,
     plain: Vec<JapaneseDictionary>,
-    with: Vec<[JapaneseDictionary; 2]>, // [enableNormalize=false, true]
+    with: Vec<[JapaneseDictionary; 3]>, // [enableNormalize=false, true, key left out (set_up: unwrap_or(true))]
     numeral_pos: Vec<Vec<String>>,
+    /// id of 名詞,数詞,*,*,*,* in the grammar of the compiled dictionary (what `set_up` looks up)
+    numeral_pos_id: u16,
 }
 
 fn lexicon(variant: usize) -> Vec<Row> {
@@ -1103,9 +1109,11 @@ impl Dicts {
                 let pr = vec![format!(r#"{{"class":"com.worksap.nlp.sudachi.JoinNumericPlugin","enableNormalize":{}}}"#, en)];
                 load(&config_json(&wd, &[], &oov, &pr, &[]), bin.clone(), vec![])
             };
-            with.push([mk(false)?, mk(true)?]);
+            let implicit = load(&config_json(&wd, &[], &oov, &[r#"{"class":"com.worksap.nlp.sudachi.JoinNumericPlugin"}"#.to_string()], &[]), bin.clone(), vec![])?;
+            with.push([mk(false)?, mk(true)?, implicit]);
         }
-        Ok(Dicts { _wd: wd, plain, with, numeral_pos: vec![POS[NUMERAL].iter().map(|x| x.to_string()).collect()] })
+        let numeral_pos_id = plain[0].grammar().get_part_of_speech_id(&POS[NUMERAL][..]).ok_or("no numeral POS in the grammar")?;
+        Ok(Dicts { _wd: wd, plain, with, numeral_pos: vec![POS[NUMERAL].iter().map(|x| x.to_string()).collect()], numeral_pos_id })
     }
 }
 
@@ -1358,6 +1366,36 @@ fn gen_multi_text(rng: &mut Rng) -> String {
     text
 }
 
+/// The un-joined best path as the plugin would receive it: the `ResultNode`s of the analysis WITHOUT the plugin (wire format
+/// of `Rewrite.parseNode`) and the class mask of every character of the modified text (`InputBuffer::cat_of_range` reads these).
+fn observe_path(dic: &JapaneseDictionary, text: &str) -> Result<Result<(Vec<u32>, Vec<String>), String>, String> {
+    catch(|| -> Result<(Vec<u32>, Vec<String>), String> {
+        let mut tok = StatefulTokenizer::new(dic, Mode::C);
+        tok.reset().push_str(text);
+        tok.do_tokenize().map_err(|e| err_class(&e))?;
+        let cat = tok.verif_input().verif_tables().mod_cat;
+        let mut input = InputBuffer::default();
+        let mut path: Vec<ResultNode> = Vec::new();
+        let mut subset = InfoSubset::all();
+        tok.swap_result(&mut input, &mut path, &mut subset);
+        let nodes = path
+            .iter()
+            .map(|n| {
+                let d = n.word_info().borrow_data();
+                format!(
+                    "{}:{}:{}:{}:{}:{}:{}:{}:{}:{}:{}:{}:{}:{}:{}:{}:{}:{}:{}:{}",
+                    n.begin(), n.end(), n.begin_bytes(), n.end_bytes(), n.word_id().as_raw(), n.total_cost(), n.left_id(), n.right_id(),
+                    n.cost(), d.pos_id, d.head_word_length, d.dictionary_form_word_id,
+                    join(d.a_unit_split.iter().map(|w| w.as_raw()), ","), join(d.b_unit_split.iter().map(|w| w.as_raw()), ","),
+                    join(d.word_structure.iter().map(|w| w.as_raw()), ","), join(d.synonym_group_ids.iter(), ","),
+                    hex(d.surface.as_bytes()), hex(d.normalized_form.as_bytes()), hex(d.reading_form.as_bytes()), hex(d.dictionary_form.as_bytes())
+                )
+            })
+            .collect();
+        Ok((cat, nodes))
+    })
+}
+
 fn norm_cps(s: &str) -> String {
     join(s.chars().map(|c| c as u32), ".")
 }
@@ -1400,11 +1438,15 @@ fn pipeline_case(run: &mut Run, dicts: &Dicts, idx: usize, directed: Option<usiz
         text = gen_multi_text(&mut rng);
         run.bump("pipeline:gen:multi-numeral");
     }
+    // `enableNormalize` left out of the settings (`set_up`: `unwrap_or(true)`): a quarter of the generated normalising cases
+    let mut implicit = en && rng.chance(1, 4);
     if let Some(k) = directed {
         text = DIRECTED_TEXTS[k / 4].to_string();
         en = k % 2 == 0;
         variant = if (k / 2) % 2 == 0 { 1 } else { 2 };
+        implicit = false;
     }
+    let cfg_ix = if implicit { 2 } else { en as usize };
     let chars: Vec<char> = text.chars().collect();
     let segs = segments_of(&chars);
     run.bump(&format!("pipeline:numerals-in-sentence:{}", if segs.len() >= 4 { "4+".to_string() } else { segs.len().to_string() }));
@@ -1427,7 +1469,28 @@ fn pipeline_case(run: &mut Run, dicts: &Dicts, idx: usize, directed: Option<usiz
         .collect::<Vec<_>>()
         .join(";");
     let payload = format!("fix={} en={} variant={} cats={} path={}", probe_fixes(), if en { 1 } else { 0 }, variant, cats, path);
-    let with = tokenize(&dicts.with[variant][en as usize], &text, Mode::C);
+    let with = tokenize(&dicts.with[variant][cfg_ix], &text, Mode::C);
+    // op pipe: `Rewrite.joinNumeric` (C14's transcription of rewrite_gen / concat / concat_nodes) run with the C15 parser
+    // model as its parser: no parser answers on the line; input = the real ResultNodes of the un-joined path, the real class
+    // masks, the settings; compared = ranges, part-of-speech ids and normalised forms of the real plugin's tokens
+    match observe_path(&dicts.plain[variant], &text) {
+        Ok(Ok((cat, nodes))) => {
+            let payload = format!(
+                "fix={} nv={} plugin=N:{}:{} cat={} path={}",
+                probe_fixes(), crate::c14::numeric_variant(), if implicit { String::new() } else { (en as u8).to_string() }, dicts.numeral_pos_id,
+                join(cat.iter(), ","), nodes.join(";")
+            );
+            let answer = match &with {
+                Err(_) => "PANIC".to_string(),
+                Ok(Err(_)) => "err".to_string(),
+                Ok(Ok(t)) => format!("ok toks={}", t.iter().map(|x| format!("{}:{}:{}:{}", x.begin_c, x.end_c, x.pos_id, norm_cps(&x.norm))).collect::<Vec<_>>().join(";")),
+            };
+            let joined = matches!(&with, Ok(Ok(t)) if t.len() < nodes.len());
+            run.case(idx, "pipe", &payload, &answer, joined);
+            run.bump(if implicit { "pipe:enableNormalize-left-out" } else if en { "pipe:enableNormalize-true" } else { "pipe:enableNormalize-false" });
+        }
+        _ => run.bump("pipe:observe-failed"),
+    }
     let answer = match &with {
         Err(_) => "PANIC".to_string(),
         Ok(Err(_)) => "err".to_string(),
@@ -1555,7 +1618,10 @@ numerals of up to 40 digits (plain/kanji/mixed digits, separators, fractions, sm
 near-miss mutations and random longer strings; op pipeline: real dictionary (digits, units, separators tagged as numerals, shadowing \
 words, full-width forms, half of the generated sentences with 2..4 numerals separated by context words: unit numeral then zero-led \
 digits, large unit then a not smaller one, malformed then normal) with JoinNumericPlugin vs the model's prediction from the un-joined \
-path; op seq (only when the tree has the hook verif_parse_seq, see extra.seq_hook_present): 2..4 numeral texts fed to ONE NumericParser \
+path; op pipe (one line per pipeline case): the same sentence, the model is C14's transcription of rewrite_gen/concat/concat_nodes run with the \
+C15 parser model as its parser (no parser answers on the line) on the real ResultNodes of the un-joined path (all node fields), the real \
+class masks of the buffer and the settings (enableNormalize true, false, or left out = a quarter of the generated normalising cases), compared \
+on ranges, part-of-speech ids and normalised forms of the real plugin's tokens; op seq (only when the tree has the hook verif_parse_seq, see extra.seq_hook_present): 2..4 numeral texts fed to ONE NumericParser \
 with clear() between them, directed sequences for every field clear() resets and generated ones (every tenth generated case), each \
 result must equal verif_parse of that text on a fresh parser and is judged like op parse; non-trivial = at least two \
 symbols (parse) / something was joined (pipeline) / always (seq); distinct by input line".into();
